@@ -102,6 +102,9 @@ def _cases(draw):
     if g.p("_", 0.2):
         case["no_headers"] = True   # the documented dict input may come without *_header keys: headers are the union of the row keys
         form.pop("ext_header", None)
+    elif g.p("_", 0.15):
+        # the workbook as a spreadsheet file with spacer columns and typed number cells: lists keep all their columns, in order
+        form["carrier"] = {"fmt": g.pick(["xlsx", "xlsx", "xls"]), "seed": g.integer(0, 9999)}
     return case
 
 
